@@ -382,16 +382,22 @@ func RunFuzzCase[C any](t *testing.T, p Prop[C], c C) {
 	r := &Rec{}
 	SafeCheck(p, c, r)
 	if r.Failed() {
-		raw, _ := json.Marshal(c)
-		rf := ReplayFile{Property: p.ID, Message: r.fail, Case: raw}
-		data, _ := json.MarshalIndent(&rf, "", " ")
-		if dir := os.Getenv("VERIF_FUZZ_REPLAY_DIR"); dir != "" {
-			_ = os.MkdirAll(dir, 0o755)
-			name := fmt.Sprintf("%s-fuzz-%016x.json", strings.ReplaceAll(p.ID, ".", "_"), caseHash(p.ID, raw))
-			_ = os.WriteFile(filepath.Join(dir, name), data, 0o644)
-		}
+		raw := SaveFuzzReplay(p.ID, c, r.fail)
 		t.Fatalf("VIOLATION %s: %s\ncase: %s", p.ID, r.fail, raw)
 	}
+}
+
+// SaveFuzzReplay converts a failing fuzz input into a replay file under $VERIF_FUZZ_REPLAY_DIR.
+func SaveFuzzReplay(id string, c interface{}, msg string) []byte {
+	raw, _ := json.Marshal(c)
+	rf := ReplayFile{Property: id, Message: msg, Case: raw}
+	data, _ := json.MarshalIndent(&rf, "", " ")
+	if dir := os.Getenv("VERIF_FUZZ_REPLAY_DIR"); dir != "" {
+		_ = os.MkdirAll(dir, 0o755)
+		name := fmt.Sprintf("%s-fuzz-%016x.json", strings.ReplaceAll(id, ".", "_"), caseHash(id, raw))
+		_ = os.WriteFile(filepath.Join(dir, name), data, 0o644)
+	}
+	return raw
 }
 
 // ---------------------------------------------------------------------------------------------
